@@ -52,10 +52,21 @@ def freeze(I, v, heap, depth=0):
         if isinstance(o, L.MaskedVal):
             return AnyV("masked")
         raise EngineError(f"freeze {type(o).__name__}")
+    if isinstance(v, NamedTupV):
+        return NamedTupV(v.tname, v.fields, [freeze(I, x, heap, depth + 1) for x in v.items])
     if isinstance(v, TupV):
         t = TupV([freeze(I, x, heap, depth + 1) for x in v.items])
         return t
     return v
+
+
+def loader_name_term(d):
+    """specification of the name -> loader mapping: 'load_' / 'fetch_' + name with '-' replaced by '_'"""
+    if d.concrete:
+        return ("load_" if d.s.startswith("sandvine") else "fetch_") + d.s.replace("-", "_")
+    t = d.term()
+    rep = ReplaceAll(t, z3.StringVal("-"), z3.StringVal("_"))
+    return z3.If(z3.PrefixOf(z3.StringVal("sandvine"), t), z3.Concat(z3.StringVal("load_"), rep), z3.Concat(z3.StringVal("fetch_"), rep))
 
 
 class Clause:
@@ -290,6 +301,8 @@ class SpecDB:
             bad = I.fork(cur)
             res.append((bad, Exc(exc, f"may be raised by {short}", wh)))
         st = cur
+        if c.opts.get("event"):
+            st.ghost.setdefault("events", []).append((c.opts["event"], dict(env)))
         heap_pre = dict(st.heap)
         # frame: havoc what the callee may modify
         for m in c.modifies:
@@ -311,8 +324,13 @@ class SpecDB:
                 if name in c.opts.get("assumed", {}):
                     I.assumed.add(f"assumed contract clause {c.qual.split('.')[-1]}.{name}: {c.opts['assumed'][name]}")
                 cl = self.clause(c, name)
-                s.assume(self.eval_clause(I, s, cl, e, env_now=now_env))
-            res.append((s, r))
+                f = self.eval_clause(I, s, cl, e, env_now=now_env)
+                if z3.is_false(z3.simplify(f)):
+                    s = None              # this result shape contradicts the callee's postcondition: not a possible outcome
+                    break
+                s.assume(f)
+            if s is not None:
+                res.append((s, r))
         return res
 
     def havoc_reachable(self, I, st, v):
@@ -333,9 +351,18 @@ class SpecDB:
     # ------------------------------------------------------------ misc hooks used by library models
 
     def str_replace_all(self, s, a, b):
-        raise EngineError("str.replace on a symbolic string")
+        return StrV(ReplaceAll(s.term(), a.term(), b.term()))
 
     def getattr_symbolic(self, I, st, obj, name, node):
+        if isinstance(obj, ModV) and I.modules.is_repo_module(obj.name):
+            mi = I.modules.load(obj.name)
+            names = sorted(mi.globals)
+            present = z3.Or([name.term() == z3.StringVal(n) for n in names])
+            excs, ok = I.may_raise(st, z3.Not(present), "AttributeError", f"module {obj.name} has no such attribute", I.where(node))
+            res = list(excs)
+            if ok is not None:
+                res.append((ok, AnyV("module-attribute")))
+            return res
         raise EngineError("getattr with a symbolic name")
 
     def instantiate_abstract(self, I, st, fv, pos, kws, node, opaque_kwargs):
@@ -401,7 +428,7 @@ class Pure:
             if node.attr in v.fields:
                 return v.fields[node.attr]
             raise EngineError(f"spec: no field {node.attr} in {v.cls}")
-        if isinstance(v, TupV) and hasattr(v, "fields"):
+        if isinstance(v, NamedTupV):
             return v.items[v.fields.index(node.attr)]
         raise EngineError(f"spec: attribute {node.attr} of {v}")
 
@@ -746,6 +773,23 @@ class Pure:
                 if out is None:
                     raise EngineError("nearest: unknown strategy")
                 return Num(out, "int")
+            if name in ("env_is_set", "env_value", "expanduser"):
+                from .libcalls import ENV_SET, ENV_VAL, EXPANDUSER
+                t = args[0].term()
+                if name == "env_is_set":
+                    return Num(ENV_SET(t), "bool")
+                return StrV(ENV_VAL(t) if name == "env_value" else EXPANDUSER(t))
+            if name == "known_loader":
+                # the loader name load_dataset derives from the dataset name is bound in the aggregation module
+                d = args[0]
+                mi = self.I.modules.load("traffic_weaver.datasets._datasets")
+                names = sorted(n for n in mi.globals)
+                fn = loader_name_term(d)
+                if isinstance(fn, str):
+                    b = mi.globals.get(fn)
+                    ok = b is not None and not (b[0] == "from" and self.I.modules.resolve_from(b[1], b[2])[0] == "missing")
+                    return BoolN(ok)
+                return Num(z3.Or([fn == z3.StringVal(n) for n in names]), "bool")
             if name == "index_of":
                 # Hilbert-choice style definition: SOME index holding v, if there is one (conservative extension)
                 xs, v = args
